@@ -63,11 +63,14 @@ func gstr(r *rec.Rand) string {
 		}
 		return string(b)
 	case 8:
+		if r.Chance(2, 3) {
+			return rec.Pick(r, words)
+		}
 		// around the 1-byte / 2-byte uvarint boundary
 		n := rec.Pick(r, []int{126, 127, 128, 129, 130, 255, 256, 300})
 		return strings.Repeat(string(rec.Pick(r, trickyBytes)), n)
 	default:
-		if r.Chance(1, 20) {
+		if r.Chance(1, 150) {
 			// 3-byte uvarint length
 			return strings.Repeat("z", rec.Pick(r, []int{16383, 16384, 16385}))
 		}
